@@ -8,6 +8,7 @@ EXTENDS RouterOps, Json
 CONSTANTS Cfgs,          \* set of configurations [name, trace, lock, icpt, domain]
           Bases,         \* set of sequences of handle ops applied before the history starts
           HOps, ROps, COps, UOps,   \* alphabets of Handle / Remove / Clean / Use calls (records as replayed)
+          MOps,          \* creations of long-lived Prefix / Resource objects (C19 / C09)
           Probes,        \* sequence of [path, wit, wps]
           ProbeMethods,  \* sequence of method strings
           Depth,         \* number of calls after the base table (generation)
@@ -36,7 +37,10 @@ RmF(ch, isres, p, ms)    == [op |-> "remove", pat |-> p, methods |-> ms, mws |->
 ClF(ch, isres)           == [op |-> "clean", pat |-> "", methods |-> <<>>, mws |-> <<>>, chain |-> ch, res |-> isres]
 UrlP(via, strict, ch, isres, p, ps) == [op |-> "url", key |-> via, strict |-> strict, pat |-> p, params |-> ps, chain |-> ch, res |-> isres]
 Pf(p, mw) == [p |-> p, mws |-> mw]
+MkF(fid, ch, isres) == [op |-> "facade", fid |-> fid, chain |-> ch, res |-> isres, pat |-> "", methods |-> <<>>, mws |-> <<>>]
+HFo(fid, ch, isres, p, ms, mw) == HF(ch, isres, p, ms, mw) @@ [fid |-> fid]
 NoUrls == <<>>
+NoMOps == {}
 TH(method, path, hdr, body, flag) == [op |-> "tracehelper", method |-> method, path |-> path, hdr |-> hdr, body |-> body, flag |-> flag]
 StdTH == {TH(m, p, h, b, f) : m \in {"TRACE", "GET"}, p \in {"/", "/a<b>&'\"c"}, h \in {<<>>, [Cookie |-> "a<b"], [Accept |-> "x&y'z\"", Cookie |-> "k"]},
                               b \in {"", "<p>&amp;'\"</p>"}, f \in BOOLEAN}
@@ -56,13 +60,20 @@ OpPat(o) == FacadePat(o.chain, o.res, o.pat)
 RECURSIVE ApplyBase(_, _, _)
 ApplyBase(R, ops, i) ==
   IF i > Len(ops) THEN R
+  ELSE IF ops[i].op = "facade" THEN ApplyBase(R, ops, i + 1)
+  ELSE IF ops[i].op = "use" THEN ApplyBase(DoUse(R, ops[i].mws), ops, i + 1)
   ELSE ApplyBase(DoHandle(R, OpPat(ops[i]), Hid(OpPat(ops[i]), ops[i].methods), FacadeMws(ops[i].chain, ops[i].mws), ops[i].methods), ops, i + 1)
 
 Init == \E c \in Cfgs, b \in Bases :
           /\ rt = ApplyBase(NewRouter(c), b, 1) /\ prevRt = rt /\ last = "init"
           /\ hist = b /\ nbase = Len(b)
 
+\* a call through a long-lived facade object needs the object to have been created
+Created(o) == ("fid" \in DOMAIN o /\ o.fid # "") => \E i \in 1..Len(hist) : hist[i].op = "facade" /\ hist[i].fid = o.fid
+Mk(o) == /\ ~(\E i \in 1..Len(hist) : hist[i].op = "facade" /\ hist[i].fid = o.fid)
+         /\ UNCHANGED <<rt>> /\ prevRt' = rt /\ last' = "facade" /\ hist' = Append(hist, o)
 Handle(o) ==
+  /\ Created(o)
   /\ \E v \in HandleVerdicts(rt, OpPat(o), o.methods, TRUE) :
         /\ rt' = IF v = "ok" THEN DoHandle(rt, OpPat(o), Hid(OpPat(o), o.methods), FacadeMws(o.chain, o.mws), o.methods) ELSE rt
         /\ last' = IF v = "ok" THEN "handle" ELSE "rejected"
@@ -79,6 +90,7 @@ Next == /\ Len(hist) - nbase < Depth
            \/ \E o \in ROps : Remove(o)
            \/ \E o \in COps : Clean(o)
            \/ \E o \in UOps : Use(o)
+           \/ \E o \in MOps : Mk(o)
 
 Spec == Init /\ [][Next]_vars
 
